@@ -282,40 +282,90 @@ def rule_classes(facts, rep):
         rep.count(2)
     rep.check(set(span) == set(sheet), "classes", V, "span-classes==sheet-classes", f"{sorted(set(span) ^ set(sheet))}", "")
     # effects_in_use accumulates the (post-invert) effects of every run
-    acc = [n for n in hir.walk(r["hir"]) if n.get("k") == "assignop" and hir.is_local(n["l"], "effects_in_use") and n["op"] == "BitOrAssign"]
-    ok = len(acc) == 1 and hir.is_call(hir.simp(acc[0]["r"]), "anstyle::style::Style::get_effects")
-    rep.check(ok, "classes", r["path"], "effects_in_use=union-of-run-effects", "", loc(r))
+    try:
+        cases, bit_ = prepass_cases(facts)
+        bad_use = []
+        for (inv, fgp, bgp), before, after, in_use, bits in cases:
+            use = in_use[2][1] if in_use[0] == "ctor" and in_use[2][0] == "int" else None
+            if use != (bit_["ITALIC"] | (bits & ~bit_["INVERT"])):
+                bad_use.append(f"run effects {bits:#x}: effects_in_use becomes {use}")
+        ok = bool(cases) and not bad_use
+    except Unrecognised as ex:
+        ok, bad_use = False, [f"not evaluable: {ex}"]
+    rep.check(ok, "classes", r["path"], "effects_in_use=union-of-run-effects",
+              f"effects_in_use accumulates the (post-invert) effects of every run {bad_use[:2]}", loc(r))
     ef = hir.simp(lets["effects"][0]["init"])
     rep.check(hir.is_call(ef, "anstyle::style::Style::get_effects") and hir.is_local(ef["args"][0], "style"), "classes", fg["path"], "effects-of-this-span", "", loc(fg))
 
 
+def prepass_cases(facts):
+    """The invert pre-pass of render_svg (the body of the loop over `&mut styled`) by abstract evaluation, per run: for INVERT on/off
+    and each colour present or not -> (style after, effects_in_use after).  Returns [(case, before, after style, in_use)]."""
+    import abseval
+    import itertools
+    r = facts.body("anstyle_svg", V + "Term::render_svg")
+    loops = []
+    for n in hir.walk(r["hir"]):
+        if n.get("k") == "match" and n.get("src") == "ForLoopDesugar":
+            fl = hir.for_loop(n)
+            if fl and hir.is_local(hir.peel(fl[1]), "styled") and any(hir.is_def(x, "Effects::INVERT") for x in hir.walk(fl[2])):
+                loops.append(fl)
+    if len(loops) != 1:
+        raise AnchorMissing(f"render_svg: the invert pre-pass over `styled` was not found ({len(loops)} candidates)")
+    pat, it, body = loops[0]
+    if not (pat.get("k") == "ptuple" and pat["pats"][0].get("k") == "pbind"):
+        raise Unrecognised("pre-pass loop pattern")
+    sname = pat["pats"][0]["name"]
+    bit = {n_: v for n_, v, _ in ac.effect_consts(facts)}
+    out = []
+    for inv, fgp, bgp in itertools.product((True, False), repeat=3):
+        bits = bit["BOLD"] | (bit["INVERT"] if inv else 0)
+        before = {"fg": ("some", ("sym", "FG")) if fgp else ("none",), "bg": ("some", ("sym", "BG")) if bgp else ("none",),
+                  "underline": ("some", ("sym", "UL")), "effects": ("ctor", "anstyle::effect::Effects", ("int", bits))}
+        ev = abseval.Evaluator(facts, "anstyle_svg", {}, inline_crates=("anstyle",))
+        env = abseval.Env()
+        env.update({sname: ("rec", dict(before)), "self.fg_color": ("sym", "DEFAULT-FG"), "self.bg_color": ("sym", "DEFAULT-BG"),
+                    "effects_in_use": ("ctor", "anstyle::effect::Effects", ("int", bit["ITALIC"]))})
+        ev.ev(body, env)
+        out.append(((inv, fgp, bgp), before, env[sname], env["effects_in_use"], bits))
+    return out, bit
+
+
 def rule_invert(facts, rep):
     r = facts.body("anstyle_svg", V + "Term::render_svg")
-    ifs = [n for n in hir.walk(r["hir"]) if n.get("k") == "if" and hir.is_call(hir.simp(n["c"]), "anstyle::effect::Effects::contains")
-           and hir.is_def(hir.simp(n["c"])["args"][1], "Effects::INVERT")]
-    rep.check(len(ifs) == 1, "invert", r["path"], "pre-pass-exists", "", loc(r))
-    if len(ifs) != 1:
-        return
-    asg = [n for n in hir.walk(ifs[0]["t"]) if n.get("k") == "assign"]
-    ok = len(asg) == 1
-    got = {}
-    if ok:
-        e = hir.simp(asg[0]["r"])
-        while e.get("k") == "call" and hir.callee(e).startswith("anstyle::style::Style::") and len(e["args"]) == 2:
-            got[hir.callee(e).split("::")[-1]] = hir.simp(e["args"][1])
-            e = hir.simp(e["args"][0])
-
-    def swapped(v, getter, default):
-        v = hir.simp(v)
-        if not v.get("ctor", "").endswith("Option::Some"):
-            return False
-        u = hir.simp(v["args"][0])
-        return hir.is_call(u, "Option::<T>::unwrap_or") and hir.is_call(hir.simp(u["args"][0]), "anstyle::style::Style::" + getter) and hir.place_str(u["args"][1]) == default
-
-    rep.check(ok and swapped(got.get("fg_color", {}), "get_bg_color", "self.bg_color"), "invert", r["path"], "fg←bg-or-default-bg", "", loc(r, ifs[0]))
-    rep.check(ok and swapped(got.get("bg_color", {}), "get_fg_color", "self.fg_color"), "invert", r["path"], "bg←fg-or-default-fg", "", loc(r, ifs[0]))
-    ef = hir.simp(got.get("effects", {}))
-    rep.check(hir.is_call(ef, "anstyle::effect::Effects::remove") and hir.is_def(ef["args"][1], "Effects::INVERT"), "invert", r["path"], "INVERT-removed", "", loc(r, ifs[0]))
+    try:
+        cases, bit = prepass_cases(facts)
+        why = ""
+    except Unrecognised as ex:
+        cases, bit, why = [], {}, f"not evaluable: {ex}"
+    rep.check(bool(cases), "invert", r["path"], "pre-pass-exists", why, loc(r))
+    bad = {"fg": [], "bg": [], "eff": [], "plain": [], "use": []}
+    for (inv, fgp, bgp), before, after, in_use, bits in cases:
+        if after[0] != "rec":
+            bad["plain"].append(str(after)[:80])
+            continue
+        a = after[1]
+        want_eff = bits & ~bit["INVERT"]
+        eff = a["effects"][2][1] if a["effects"][0] == "ctor" and a["effects"][2][0] == "int" else None
+        if inv:
+            if a.get("fg") != ("some", ("sym", "BG") if bgp else ("sym", "DEFAULT-BG")):
+                bad["fg"].append(f"bg {'set' if bgp else 'unset'}: fg becomes {a.get('fg')}")
+            if a.get("bg") != ("some", ("sym", "FG") if fgp else ("sym", "DEFAULT-FG")):
+                bad["bg"].append(f"fg {'set' if fgp else 'unset'}: bg becomes {a.get('bg')}")
+            if eff != want_eff or a.get("underline") != before["underline"]:
+                bad["eff"].append(f"effects {eff}, expected {want_eff}; underline {a.get('underline')}")
+        elif a != before:
+            bad["plain"].append(f"a run without INVERT is changed: {str(a)[:100]}")
+        use = in_use[2][1] if in_use[0] == "ctor" and in_use[2][0] == "int" else None
+        if use != (bit["ITALIC"] | want_eff):
+            bad["use"].append(f"effects_in_use {use}, expected {bit['ITALIC'] | want_eff}")
+    ok = bool(cases)
+    rep.check(ok and not bad["fg"], "invert", r["path"], "fg←bg-or-default-bg", f"an inverted run's foreground is its background, or the terminal's default background {bad['fg'][:2]}", loc(r))
+    rep.check(ok and not bad["bg"], "invert", r["path"], "bg←fg-or-default-fg", f"an inverted run's background is its foreground, or the terminal's default foreground {bad['bg'][:2]}", loc(r))
+    rep.check(ok and not bad["eff"] and not bad["plain"], "invert", r["path"], "INVERT-removed",
+              f"INVERT is cleared, the other effects and the underline colour stay; runs without INVERT are untouched {(bad['eff'] + bad['plain'])[:2]}", loc(r))
+    rule_invert.use_ok = ok and not bad["use"]
+    rule_invert.use_why = str(bad["use"][:2])
 
 
 def rule_names(facts, rep):
